@@ -256,7 +256,7 @@ def cobs(o):
 def run(ctx):
     ctx.rule = ("crash-point sweep on the REAL full stack (manager, locator, spa, facade, simulator; virtual time): three base runs (healthy connect + RF-error burst + self-initiated "
                 "reconnect; blackout right after discovery so that the handshake stalls; blackout during discovery) are repeated with a user reset, resp. a context exit, started "
-                "at event-loop pass k for k over the passes of the base run (quick: every 9th pass and every pass of the handshake window; thorough: every pass), also with a client whose handlers suspend and with the connection's socket lost (connection_lost(OSError)) two passes earlier: 0.5 s after the "
+                "at event-loop pass k for k over the passes of the base run (quick: every 9th pass and every pass of the handshake window; thorough: every pass; quick takes in addition every pass around the end of each handshake), also with a client whose handlers suspend (quick: a third of the passes each; thorough: every pass in every mode) and with the connection's socket lost (connection_lost(OSError)) two passes earlier: 0.5 s after the "
                 "action every endpoint and SPA / FACADE task of the abandoned connection must be closed / done; three late datagrams are then fed to the abandoned protocol object "
                 "and 3 s pass: no event of the abandoned spa object may reach the client; after exit nothing is open or alive; after a reset the manager must reconnect; "
                 "the model's accounting predicate is evaluated on every observed ledger; plus runs of consecutive reconnect cycles under faults; plus schedules of the interleaved lifecycle rig "
@@ -283,7 +283,7 @@ def run(ctx):
             lost = action.endswith("lost")
             slow = action.endswith("slow-exit-handler")      # the client's handler for SPA_MAN_EXIT stays suspended for 1.2 s: what runs meanwhile?
             action = action.split("+")[0]
-            for k in sorted((ks if not (susp or lost or slow) else {x for x in ks if x % 3 == (0 if susp else 1 if lost else 2)}) | hot[susp]):
+            for k in sorted((ks if not (susp or lost or slow) else {x for x in ks if ctx.thorough or x % 3 == (0 if susp else 1 if lost else 2)}) | hot[susp]):
                 r = crash_run(variant, k, action, suspend=susp, lost=lost, slow_exit=slow)
                 if not r["fired"]:
                     continue
